@@ -29,10 +29,10 @@ func TestVerifReplay(t *testing.T) {
 		}
 	}
 	changes := map[string]func(*CompositeResourceDefinition){
-		"nothing":          func(*CompositeResourceDefinition) {},
-		"spec.group":       func(x *CompositeResourceDefinition) { x.Spec.Group = "other.org" },
-		"spec.names.kind":  func(x *CompositeResourceDefinition) { x.Spec.Names.Kind = "XOther" },
-		"spec.names.plural": func(x *CompositeResourceDefinition) { x.Spec.Names.Plural = "xothers" },
+		"nothing":                func(*CompositeResourceDefinition) {},
+		"spec.group":             func(x *CompositeResourceDefinition) { x.Spec.Group = "other.org" },
+		"spec.names.kind":        func(x *CompositeResourceDefinition) { x.Spec.Names.Kind = "XOther" },
+		"spec.names.plural":      func(x *CompositeResourceDefinition) { x.Spec.Names.Plural = "xothers" },
 		"spec.claimNames.kind":   func(x *CompositeResourceDefinition) { x.Spec.ClaimNames.Kind = "Other" },
 		"spec.claimNames.plural": func(x *CompositeResourceDefinition) { x.Spec.ClaimNames.Plural = "others" },
 	}
